@@ -372,12 +372,15 @@ package funnel
 // run of that class and not longer, and its filter count is recounted exactly.
 //verif:def sameClass(x, y) = x == y || (x == RecordFlagAck || x == RecordFlagFilter) && (y == RecordFlagAck || y == RecordFlagFilter)
 //verif:func (*Worker).subBatchByFlag(w, b, firstIndex) (s)
-//verif:requires BInv(b) && 0 <= firstIndex
+//verif:requires BLens(b) && 0 <= firstIndex
 //verif:modifies nothing
 //verif:ensures[nil-at-end] (firstIndex >= len(b.recordStatuses)) == (s == nil)
-//verif:ensures[window] s != nil ==> len(s.records) >= 1 && firstIndex + len(s.records) <= len(b.records) && sameWindow(s.records, b.records, firstIndex, firstIndex + len(s.records)) && sameWindow(s.positions, b.positions, firstIndex, firstIndex + len(s.records)) && sameWindow(s.recordStatuses, b.recordStatuses, firstIndex, firstIndex + len(s.records)) && BInv(s) && slack(s) == 0
+//verif:ensures[window] s != nil ==> len(s.records) >= 1 && firstIndex + len(s.records) <= len(b.records) && sameWindow(s.records, b.records, firstIndex, firstIndex + len(s.records)) && sameWindow(s.positions, b.positions, firstIndex, firstIndex + len(s.records)) && sameWindow(s.recordStatuses, b.recordStatuses, firstIndex, firstIndex + len(s.records)) && BLens(s)
+//verif:ensures[recounted] s != nil && BInv(b) ==> BInv(s) && slack(s) == 0
 //verif:ensures[one-class] s != nil ==> forall k in [firstIndex, firstIndex + len(s.records)): sameClass(b.recordStatuses[k].Flag, b.recordStatuses[firstIndex].Flag)
 //verif:ensures[maximal] s != nil && firstIndex + len(s.records) < len(b.records) ==> !sameClass(b.recordStatuses[firstIndex + len(s.records)].Flag, b.recordStatuses[firstIndex].Flag)
+//verif:ensures[nothing-filtered-outside-the-ack-class] s != nil && b.recordStatuses[firstIndex].Flag != RecordFlagAck && b.recordStatuses[firstIndex].Flag != RecordFlagFilter ==> nfilt(s) == 0 && active(s) == len(s.records) && BInv(s)
+//verif:hint lemma_cntf_none(heapof(s.recordStatuses, "Flag"), base(s.recordStatuses), off(s.recordStatuses), len(s.recordStatuses))
 //verif:loop 0 vars lastIndex, j=rangeindex
 //verif:loop 0 invariant lastIndex == firstIndex + j + 1 && j < len(b.recordStatuses) - firstIndex && 1 <= len(flags) && len(flags) <= 2 && flags[0] == b.recordStatuses[firstIndex].Flag && (len(flags) == 2 ==> (flags[0] == RecordFlagAck && flags[1] == RecordFlagFilter || flags[0] == RecordFlagFilter && flags[1] == RecordFlagAck)) && (len(flags) == 1 ==> flags[0] != RecordFlagAck && flags[0] != RecordFlagFilter)
 //verif:loop 0 invariant forall k in [firstIndex, lastIndex): sameClass(b.recordStatuses[k].Flag, b.recordStatuses[firstIndex].Flag)
